@@ -80,6 +80,24 @@ CHECKS = {
             "Model-based testing of call histories on real ImmersedBodyFlowInteraction / RigidBodyFlowInteraction objects: after "
             "every rule the marker force, integral, mismatch, time and the shared Eulerian field equal the model; flow velocity and "
             "body state bit-identical; velocity view read-only.", "3/C10", ""),
+    "C02": (True, "Hypothesis-generated physical parameters and resolution families vs closed-form Lamb-Oseen / Gaussian solutions; convergence order and error bounds calibrated on the unchanged tree",
+            "Generated families of 3-5 resolutions (2-D: 32..128, 3-D: 16..48) integrated with the simulator's own stable time step "
+            "to a common final time; relative L2 error against the analytic solution must decrease monotonically, show a "
+            "coarsest-to-finest order >= 1 - delta and stay below B(n) (delta, B calibrated from 240 generated families, "
+            "calibration/c02.json).", "3/C02",
+            "Calibrated constants: a degradation that keeps ~first-order convergence and stays under 3x the calibrated error is not visible here."),
+    "C14": (True, "Stratified Hypothesis: metamorphic commuting-diagram test between two real simulators related by a drawn element of the grid symmetry group",
+            "State transformed by axis permutations and mirrors (vorticity as pseudo-scalar/vector, polar vectors with signs); a second "
+            "simulator with the permuted grid takes the same step; results must commute within 512 eps S for every simulator class "
+            "and configuration.", "3/C14", ""),
+    "C17": (True, "Stratified Hypothesis over generated registries and raw bit-pattern contents (NaN payloads, inf, denormals): bit-exact round-trip, h5py layout oracle, rejection of tampered files",
+            "IO, EulerianFieldIO and CosseratRodIO with generated names/grids/marker counts (incl. N == dim, field names repeated across "
+            "grids, grids without fields): save leaves sources untouched, fresh objects reload bit-exactly, on-disk layout as documented, "
+            "missing datasets / differing grid parameters raise.", "3/C17", ""),
+    "C18": (True, "Hypothesis over (configuration, checkpoint index) pairs: resumed run with poisoned scratch vs uninterrupted run (differential); generated checkpoint directories vs a model of the restart helper",
+            "Coupled flow-body runs (2-D cylinder / 3-D sphere, all simulator options) checkpointed through the IO layer at a drawn "
+            "step, resumed in fresh objects whose scratch arrays are poisoned, compared with the uninterrupted run; restart helper "
+            "on generated file sets (indices >= 10000, unrelated files, matching/mismatching PyElastica state).", "3/C18", ""),
 }
 
 NOT_BUILT_REASON = "check not built yet (work in progress in this session; will be claimed once its generated check is registered)"
